@@ -97,12 +97,22 @@ def _prepare_path(np, path, pre):
 def _check_point(np, p, path, write, expected, n, count, labels, case):
 	from gambit.sigs.base import load_signatures
 	_prepare_path(np, path, case.get('preexisting'))
+	before = open(path, 'rb').read() if os.path.exists(path) else None
 	how = case.get('how', 'sigkill')
 	status, info = crash.run_writer(write, n, how)
 	if status != 'killed':
 		raise HarnessError(f'writer child was not killed at point {n} ({how}): {status} {info}')
 	one = dict(case)
 	one.update({'kind': 'point', 'point': n})
+	out_open = 'open:' + os.path.basename(path)
+	first_touch = labels.index(out_open) if out_open in labels else 0
+	if n <= first_touch:
+		# the writer died before it first opened the output path: whatever was there before (nothing, junk, an older complete
+		# signature file) must simply still be there
+		now = open(path, 'rb').read() if os.path.exists(path) else None
+		if now != before:
+			raise Violation('touched_before_open', f'writer killed before call {n} (it had not opened the output file yet) but the path changed', one)
+		return 'untouched'
 	try:
 		loaded = load_signatures(path)
 	except Exception as e:
@@ -239,7 +249,7 @@ def run_case(case, ctx):
 	count, labels = info
 	if os.path.exists(path):
 		os.unlink(path)
-	if 'attr' not in labels or labels[-1] != 'close':
+	if 'attr' not in labels or labels[-1] != 'close' or ('open:' + os.path.basename(path)) not in labels:
 		raise HarnessError(f'unexpected call sequence {labels}')
 	first_after_marker = labels.index('attr') + 1
 	if case['kind'] == 'point':
@@ -253,7 +263,7 @@ def run_case(case, ctx):
 		evals += 1
 		if first_after_marker <= n < count:
 			nt += 1
-		if r == 'refused':
+		if r in ('refused', 'untouched'):
 			refused += 1
 		else:
 			loaded += 1
